@@ -659,9 +659,9 @@ def run(ctx):
     setup_scratch(ctx)
     fills = make_fills(ctx)
     cases, layouts, _ = enumerate_cases(ctx, fills, ddofs=ctx.pick("{0, 1}", "{0, 1, 2}"), mincounts=ctx.pick("{0, 2}", "{0, 1, 3}"))
-    items, total_pairs, sampled = pair_items(ctx, cases, layouts, ctx.pick(3600, 40000))
+    items, total_pairs, sampled = pair_items(ctx, cases, layouts, ctx.pick(3600, 30000))
     replay_cases(ctx, items)
-    nrec = ctx.pick(500, 5000)
+    nrec = ctx.pick(500, 4000)
     recs = [r for r in pmap(_record, [(i, random_case(ctx.rng)) for i in range(nrec)], chunk=16) if r is not None]
     validate_records(ctx, recs)
     seen = set()
